@@ -886,6 +886,35 @@ func c15RoundTrip(k *fw.K, docEx *document.DocumentEx, label string) *c15Blobs {
 	} else {
 		k.Count("export_twice_DIFFERENT")
 	}
+	// a blob belongs to the caller: exporting OTHER documents afterwards (an empty one, and
+	// this document without its first file) must leave the bytes handed out untouched
+	snapOuter, snapDoc, snapEv := append([]byte{}, out.outer...), append([]byte{}, out.doc...), append([]byte{}, out.ev...)
+	{
+		var empty document.Document
+		_, _ = empty.ToCbor()
+		_, _ = (&document.DocumentEx{}).ToCbor()
+		_, _ = (&document.Session{}).ChipAuthEvidenceToCbor()
+		if len(files) > 0 {
+			if b, err := docEx.Document.ToCbor(); err == nil {
+				if less, err := document.NewDocumentFromCbor(b); err == nil && less != nil {
+					if c15SetFile(less, files[0].name, nil) == nil {
+						_, _ = less.ToCbor()
+						_, _ = (&document.DocumentEx{Document: *less}).ToCbor()
+					}
+				}
+			}
+		}
+		k.Count("blobs_held_across_other_exports")
+		for _, h := range []struct {
+			level     string
+			now, snap []byte
+		}{{"outer", out.outer, snapOuter}, {"document", out.doc, snapDoc}, {"evidence", out.ev, snapEv}} {
+			if !bytes.Equal(h.now, h.snap) {
+				k.Violation("cbor:blob-changed-by-a-later-export:level="+h.level, "the bytes returned by an export changed when other documents were exported afterwards (the blob aliases reused memory): the blob no longer describes its document", det(map[string]any{"before": c15Hex(h.snap), "after": c15Hex(h.now)}))
+				return nil
+			}
+		}
+	}
 	// the export must not have changed the exported document
 	if d := c15CmpFiles(files, &docEx.Document); d != "" {
 		k.Violation("cbor:export-modified-source:"+d, "exporting changed the exported document", det(nil))
